@@ -262,6 +262,11 @@ class NF:
                 return env.vars[e.id]
             if e.id in ("True", "False", "None"):
                 return const({"True": True, "False": False, "None": None}[e.id])
+            r = env.module.resolve(e)
+            if isinstance(r, Class):
+                return ("class", r.qualname)
+            if e.id in env.module.imports:
+                return ("global", env.module.imports[e.id])
             # module-level constant assignment (e.g. _INT_PARAM) stays symbolic by name
             return ("global", f"{env.module.name}.{e.id}")
         if isinstance(e, ast.Constant):
@@ -885,6 +890,80 @@ class NF:
             for a in s.names:
                 if a.asname:
                     m.imports.setdefault(a.asname, a.name)
+
+    # ------------------------------------------------------------------ branching bodies
+    def paths(self, cls: Class, name: str, self_t=None, args: dict | None = None, bound: int = 64):
+        """Enumerate the acyclic if/match paths of a method.  Yields (guards, outcome, term, node) where guards is a
+        list of (test term, taken) / (pattern text, taken), outcome is 'return' | 'raise' | 'fallthrough'."""
+        from .cfg import CFG, EXIT, RAISE
+        c, m = cls.find_method(name)
+        if m is None:
+            raise Opaque(f"{cls.qualname}.{name} not found")
+        self_t = self_t if self_t is not None else sym("self")
+        a = dict(args or {})
+        for p_ in [x.arg for x in m.args.args[1:] + m.args.kwonlyargs]:
+            a.setdefault(p_, sym(p_))
+        g = CFG(real_body(m))
+        out = []
+        for path in g.paths(bound=bound):
+            vars = dict(a)
+            if m.args.args:
+                vars[m.args.args[0].arg] = self_t
+            types = {self_t: cls} if self_t[0] == "sym" else {}
+            for x in m.args.args[1:]:
+                if x.annotation is not None and a[x.arg][0] == "sym":
+                    ty = self.ann_type(c.module, x.annotation)
+                    if ty is not None:
+                        types[a[x.arg]] = ty
+            env = Env(c.module, cls, vars, types, 0, 0)
+            guards = []
+            outcome, term, node = "fallthrough", None, m
+            subject = None
+            for nid, lab in path:
+                st = g.stmt.get(nid)
+                kind = g.kind.get(nid)
+                if st is None:
+                    continue
+                if kind == "test":
+                    guards.append((self.ev(st, env), lab == "T", st))
+                elif kind == "subject":
+                    subject = self.ev(st, env)
+                elif kind == "case":
+                    guards.append((("pattern", subject, u(st)), lab == "T", st))
+                    if lab == "T":
+                        self._bind_pattern(st, subject, env)
+                elif kind == "stmt":
+                    if isinstance(st, ast.Return):
+                        outcome, term, node = "return", (self.ev(st.value, env) if st.value is not None else const(None)), st
+                    elif isinstance(st, ast.Raise):
+                        outcome, term, node = "raise", (self.ev(st.exc, env) if st.exc is not None else const(None)), st
+                    elif isinstance(st, ast.Assign) and len(st.targets) == 1:
+                        try:
+                            self._assign(st.targets[0], self.ev(st.value, env), env)
+                        except Opaque:
+                            pass
+                    elif isinstance(st, ast.AnnAssign) and isinstance(st.target, ast.Name) and st.value is not None:
+                        env.vars[st.target.id] = self.ev(st.value, env)
+                    elif isinstance(st, (ast.Import, ast.ImportFrom)):
+                        self._local_import(st, env)
+            out.append((guards, outcome, term, node, env))
+        return out
+
+    def _bind_pattern(self, pat, subject, env: Env):
+        if isinstance(pat, ast.MatchAs) and pat.name:
+            env.vars[pat.name] = subject if pat.pattern is None else subject
+        if isinstance(pat, ast.MatchClass):
+            cls = env.module.resolve(pat.cls)
+            names = []
+            if isinstance(cls, Class):
+                ma = cls.class_assigns.get("__match_args__")
+                names = [f.name for f in cls.all_fields()] if ma is None else list(ast.literal_eval(ma))
+            for i, sp in enumerate(pat.patterns):
+                if isinstance(sp, ast.MatchAs) and sp.name and i < len(names):
+                    env.vars[sp.name] = self.project(subject, names[i], env)
+            for kn, sp in zip(pat.kwd_attrs, pat.kwd_patterns):
+                if isinstance(sp, ast.MatchAs) and sp.name:
+                    env.vars[sp.name] = self.project(subject, kn, env)
 
     # ------------------------------------------------------------------ public helpers
     def method_nf(self, cls: Class, name: str, self_t=None, args: dict | None = None):
